@@ -120,6 +120,10 @@ func (c *ctx) whoWrites(rule string, fv *types.Var, name string, allowed allow, 
 		if skipFresh && isFreshAlloc(w.Base) {
 			continue
 		}
+		// storing a field's own current value back into it (part of a whole-struct re-assignment that keeps the field)
+		if ap := strings.TrimLeft(c.p.path(w.Instr.Addr), "&"); ap != "" && ap == c.p.path(w.Instr.Val) {
+			continue
+		}
 		kept = append(kept, w)
 		enc := enclosing(origin(w.Fn))
 		construct := fmt.Sprintf("%s/writers-of/%s/%s", rule, name, fnName(enc))
